@@ -176,6 +176,9 @@ func (f *pureFn) cond(e ast.Expr) string {
 		case token.LOR:
 			return "(" + f.cond(x.X) + " || " + f.cond(x.Y) + ")"
 		case token.EQL, token.NEQ, token.LSS, token.LEQ, token.GTR, token.GEQ:
+			if z, ok := f.zeroCompare(x); ok {
+				return z
+			}
 			a, ka := f.val(x.X)
 			b, kb := f.val(x.Y)
 			if ka != kb {
@@ -201,6 +204,58 @@ func (f *pureFn) cond(e ast.Expr) string {
 // `if c then a else b` on Bool, written with && || ! only (plain Boolean algebra for the proofs)
 func ite(c, a, b string) string {
 	return "((" + c + " && " + a + ") || ((!" + c + ") && " + b + "))"
+}
+
+// integer leaves of the struct types whose zero value a predicate may be compared with
+var zeroLeaves = map[string][]string{
+	"protocol.Range":    {"Start.Line", "Start.Character", "End.Line", "End.Character"},
+	"protocol.Position": {"Line", "Character"},
+}
+
+// `p == T{}` / `p != T{}` (or with a selector chain on p) for a struct parameter p and the empty
+// composite literal of a known struct type: every integer leaf is zero.
+func (f *pureFn) zeroCompare(x *ast.BinaryExpr) (string, bool) {
+	if x.Op != token.EQL && x.Op != token.NEQ {
+		return "", false
+	}
+	side, lit := x.X, x.Y
+	if _, ok := side.(*ast.CompositeLit); ok {
+		side, lit = lit, side
+	}
+	cl, ok := lit.(*ast.CompositeLit)
+	if !ok || len(cl.Elts) != 0 {
+		return "", false
+	}
+	root, path, ok := selPath(side)
+	if !ok || f.kinds[root] != kStruct {
+		return "", false
+	}
+	tname := ""
+	switch t := cl.Type.(type) {
+	case *ast.SelectorExpr:
+		if id, ok := t.X.(*ast.Ident); ok {
+			tname = id.Name + "." + t.Sel.Name
+		}
+	case *ast.Ident:
+		tname = t.Name
+	}
+	leaves, ok := zeroLeaves[tname]
+	if !ok {
+		pfail("comparison with the zero value of %s", tname)
+	}
+	var parts []string
+	for _, l := range leaves {
+		full := l
+		if path != "" {
+			full = path + "." + l
+		}
+		parts = append(parts, fmt.Sprintf("((%s_n %s) == 0)", root, strconv.Quote(full)))
+	}
+	out := "(" + strings.Join(parts, " && ") + ")"
+	if x.Op == token.NEQ {
+		out = "(!" + out + ")"
+	}
+	return out, true
 }
 
 // a statement list as one Bool expression; rest is what follows an `if` / `switch` that does not return
